@@ -193,6 +193,15 @@ func runInWorker(c proto.Case, o *proto.Out) []string {
 		}
 		timer.Stop()
 		if done {
+			// a `stress` case leaves goroutines of the engine behind that never end (a Queue processor's TTL watcher
+			// with ttl 0 polls without pause): give the next case a fresh worker process
+			for _, op := range c.Ops {
+				if strings.HasPrefix(op, "stress ") {
+					w.kill()
+					cur = nil
+					break
+				}
+			}
 			for _, k := range counts {
 				o.Count(k)
 			}
